@@ -76,6 +76,17 @@ SCENARIOS = {
         input Other { m: Money }
         type Query { o(order: Order): Int }
         """, "query O($order: Order) { o(order: $order) }", {"scalars": {"Money": {"type": "decimal.Decimal"}}}),
+    "fragment-with-own-enum-that-spreads-another-fragment": ("""
+        enum Shade { DARK LIGHT } enum Form { ROUND SQUARE } enum Unused3 { Z }
+        type Thing { shade: Shade form: Form name: String inner: Thing }
+        type Query { thing: Thing }
+        """, "fragment Base on Thing { name form } fragment Top on Thing { shade ...Base inner { ...Base } } query T { thing { ...Top } }", {}),
+    "custom-operations-enabled-next-to-operations": ("""
+        enum Used { A } enum OnlyInSchema { B } enum ArgEnum { C }
+        input In { n: Int }
+        type Item { u: Used other: OnlyInSchema sub(kind: ArgEnum): Item }
+        type Query { item(i: In): Item }
+        """, "query Q { item { u } }", {"enable_custom_operations": True}),
     "diamond-repeated-type-and-cycle": ("""
         enum K { A } enum K2 { B } enum KUnused { C }
         input Leaf { k: K }
